@@ -249,6 +249,38 @@ def make_inputs(case: OpCase, seed: int, dtype: torch.dtype = torch.float64) -> 
     return t
 
 
+def reference_survives(case: OpCase, t: Dict[str, Any], timeout_s: float = 20.0) -> bool:
+    """PyTorch's own CPU float16 conv1d kernel dies with SIGSEGV for some geometries (torch 2.14: batch 5, length 1,
+    stride 2, padding 1, dilation 2, groups 2 - `F.conv1d` alone, no library code involved).  Such a case cannot be
+    evaluated at all (the library calls the same kernel), so float16 convolutions are first tried in a forked child; a
+    child killed by a signal (or hanging) means the case is skipped and counted, not that anything is wrong with the
+    library."""
+    import os
+    import time as _time
+    if not (case.op == "conv1d" and any(torch.is_tensor(v) and v.dtype == torch.float16 for v in t.values())):
+        return True
+    pid = os.fork()
+    if pid == 0:
+        try:
+            torch.set_num_threads(1)
+            call_ref(case, dict(t), 0)
+        except BaseException:  # noqa: BLE001
+            pass
+        os._exit(0)
+    t0 = _time.time()
+    while _time.time() - t0 < timeout_s:
+        done, status = os.waitpid(pid, os.WNOHANG)
+        if done:
+            return os.WIFEXITED(status)
+        _time.sleep(0.01)
+    try:
+        os.kill(pid, 9)
+        os.waitpid(pid, 0)
+    except Exception:  # noqa: BLE001
+        pass
+    return False
+
+
 def _req(t: Dict[str, Any], case: OpCase) -> Dict[str, Any]:
     out = dict(t)
     for n in case.diff:
